@@ -21,7 +21,7 @@ from .c06 import _norm_docstrings
 
 PROPERTY = "C14"
 LEVEL = "exploration"
-SHARDS = {"quick": 4, "thorough": 16}
+SHARDS = {"quick": 8, "thorough": 16}
 TIMEOUT = {"quick": 900, "thorough": 3400}
 OP = "sync_properties"
 RULE = (
@@ -129,7 +129,8 @@ def one(ctx, i, tmpdir):
         cand_out = [l for l in cand_out if tuple(l["path"]) not in used_out and tuple(l["path"][:-1]) not in {u[:-1] for u in used_out}]
         if not cand_out:
             break
-        ol = rng.choice(cand_out)
+        again = [l for l in cand_out if l.get("redeclared_in_block")]
+        ol = rng.choice(again) if again and rng.random() < 0.6 else rng.choice(cand_out)
         used_out.add(tuple(ol["path"]))
         pairs.append((list(ipath), list(ol["path"])))
         fi = loc_features(in_tree, il) if not evalmode else {"func_precedes": False, "depth": 1, "target_kind": "annassign"}
@@ -177,6 +178,7 @@ def one(ctx, i, tmpdir):
         "in_func_precedes": any(f[0]["func_precedes"] for f in feats), "out_func_precedes": any(f[1]["func_precedes"] for f in feats),
         "in_max_depth": max(f[0]["depth"] for f in feats), "out_max_depth": max(f[1]["depth"] for f in feats),
         "out_has_kwonly": any(f[1]["target_kind"] in ("kwarg", "method_kwarg") for f in feats),
+        "out_name_assigned_again_in_block": any(l.get("redeclared_in_block") and l["path"] in [p[1] for p in pairs] for l in mout["locations"]),
     }
     replay = {"case": i, "seed": ctx.seed, "tier": ctx.tier, "in_src": in_src, "out_src": out_src, "pairs": pairs, "wrap": wrap, "eval": evalmode}
     ctx.case((i, ctx.shard[0], tuple(map(tuple, (p[1] for p in pairs))), wrap, evalmode), nontrivial=not bad_address,
@@ -185,6 +187,8 @@ def one(ctx, i, tmpdir):
     ctx.feature("bad_input_address" if bad_input else ("bad_output_address" if bad_address else "resolvable"))
     base["bad_input"] = bad_input
     ctx.feature("pairs={}".format(len(pairs)))
+    if base["out_name_assigned_again_in_block"]:
+        ctx.feature("output_target_assigned_again_in_a_block")
     ctx.feature("eval" if evalmode else "no_eval")
     ctx.feature("wrap" if wrap else "no_wrap")
     exc = None
@@ -256,8 +260,8 @@ def run(ctx):
     ctx.require("cli_invocations", 3)
     tmpdir = tempfile.mkdtemp(prefix="dtverif-c14-")
     try:
-        for i in range(ctx.n(500, 20000)):
-            one(ctx, i, tmpdir)
+        for j in range(ctx.n(2000, 20000)):
+            one(ctx, j * ctx.shard[1] + ctx.shard[0], tmpdir)
             for fn in os.listdir(tmpdir):
                 os.unlink(os.path.join(tmpdir, fn))
     finally:
